@@ -3,6 +3,7 @@ import PelModel.Main
 import PelProofs.Cli
 import PelProofs.Main
 import PelProofs.Top
+import PelModel.Bmc
 /-
   C11 — Only delete options remove files, and only the files they name.
   In the model a directory is the list of its top-level regular files; the read-only modes (`listMode`, `allMode`,
@@ -424,5 +425,79 @@ example : (runMain envDemo { path := some (s "/pels"), json := true, outputDir :
       (fun d => d.map (·.name))) = some [s "a_50000001.50000001.json"] ∧
     (runMain envDemo { path := some (s "/pels"), json := true, clean := true, outputDir := some (s "/out") } wPels).world.subdirs = [s "archive"] := by
   decide +kernel
+
+/-! ### inside a BMC (`PelModel/Bmc.lean`): no `-p`, `-A` selects the archive below the log directory -/
+
+theorem bmc_update_view (b : BmcWorld) (archive : Bool) : b.update archive (b.view archive) = b := by
+  cases archive <;> cases b with | mk l ls ar ars f e o => cases ar <;> rfl
+
+theorem bmcPath_truthy (archive : Bool) : tv (some (bmcPath archive)) = some (bmcPath archive) := by
+  cases archive <;> rfl
+
+/-- ★ inside a BMC, too, a command line without `-d`, `-D`, `-c`, `-j` changes nothing: not the log directory, not the archive, not the
+    `-f` file, not the `-o` directory — with or without `-A`, for every environment, command line, BMC and fault plan -/
+theorem bmc_command_readonly (fault : Nat → Bool) (env : Env) (a : Args) (archive : Bool) (b : BmcWorld)
+    (hd : truthy a.delete = false) (hD : a.deleteAll = false) (hc : a.clean = false) (hj : a.json = false) :
+    (runMainBmcF fault env a archive b).world = b := by
+  have h := (command_readonly fault env (a.inBmc archive) (b.view archive)).1 hd hD hc hj
+  show b.update archive (runMainF fault env (a.inBmc archive) (b.view archive)).world = b
+  rw [h]; exact bmc_update_view b archive
+
+/-- ★ whatever the command line: without `-A` the archive (a subdirectory of the log directory) keeps every file, with `-A` the log
+    directory does; subdirectories and the exclude file are never touched, and an archive directory neither appears nor disappears -/
+theorem bmc_other_directory_untouched (fault : Nat → Bool) (env : Env) (a : Args) (archive : Bool) (b : BmcWorld) :
+    (archive = false → (runMainBmcF fault env a archive b).world.archive = b.archive) ∧
+    (archive = true → (runMainBmcF fault env a archive b).world.logs = b.logs) ∧
+    (runMainBmcF fault env a archive b).world.logSubdirs = b.logSubdirs ∧
+    (runMainBmcF fault env a archive b).world.archiveSubdirs = b.archiveSubdirs ∧
+    (runMainBmcF fault env a archive b).world.exclude = b.exclude ∧
+    (runMainBmcF fault env a archive b).world.archive.isSome = b.archive.isSome := by
+  cases archive
+  · exact ⟨fun _ => rfl, fun h => Bool.noConfusion h, rfl, rfl, rfl, rfl⟩
+  · refine ⟨fun h => Bool.noConfusion h, fun _ => rfl, rfl, rfl, rfl, ?_⟩
+    show (Option.map _ b.archive).isSome = _
+    cases b.archive <;> rfl
+
+/-- ★ `-D` inside a BMC removes exactly the top-level regular files of the directory worked on (the log directory, or the archive with
+    `-A`), and `-d E` at most one of them whose name contains the id -/
+theorem bmc_command_delete_exact (fault : Nat → Bool) (env : Env) (a : Args) (archive : Bool) (b : BmcWorld)
+    (hh : a.NoHigherMode) (hnd : a.NoDisplayMode) :
+    (∀ e, tv a.delete = some e →
+      (runMainBmcF fault env a archive b).world = b ∨
+      ∃ pid f, processId e = some pid ∧ f ∈ (b.view archive).dir ∧ isInfix pid f.name = true ∧
+        (runMainBmcF fault env a archive b).world = b.update archive { b.view archive with dir := (b.view archive).dir.erase f }) ∧
+    (tv a.delete = none → a.deleteAll = true →
+      (runMainBmcF fault env a archive b).world = b.update archive { b.view archive with dir := [] }) := by
+  have hh' : (a.inBmc archive).NoHigherMode := ⟨hh.file, hh.json, hh.pelID, hh.bmcID, hh.plid, hh.src, hh.srcExclude⟩
+  have hnd' : (a.inBmc archive).NoDisplayMode := ⟨hnd.list, hnd.count, hnd.all⟩
+  have hv : (b.view archive).pathIsDir = true := by cases archive <;> rfl
+  have h := command_delete_exact fault env (a.inBmc archive) (b.view archive) (bmcPath archive) hh' hnd' (bmcPath_truthy archive) hv
+  constructor
+  · intro e he
+    rcases h.1 e he with h1 | ⟨pid, f, h1, h2, h3, h4⟩
+    · left
+      show b.update archive (runMainF fault env (a.inBmc archive) (b.view archive)).world = b
+      rw [h1]; exact bmc_update_view b archive
+    · right
+      refine ⟨pid, f, h1, h2, h3, ?_⟩
+      show b.update archive (runMainF fault env (a.inBmc archive) (b.view archive)).world = _
+      rw [h4]
+  · intro he hD
+    show b.update archive (runMainF fault env (a.inBmc archive) (b.view archive)).world = _
+    rw [h.2 he hD]
+
+/-- a BMC with two files in the log directory and one in the archive -/
+def bDemo : BmcWorld :=
+  { logs := [{ name := s "junk", data := [] }, { name := s "x_50000001", data := [1] }], logSubdirs := [s "other"],
+    archive := some [{ name := s "old_50000001", data := [2] }] }
+
+-- `peltool -D` : the log directory is emptied, the archive below it keeps its file; `peltool -A -D` : the other way round
+example : (runMainBmc envDemo { deleteAll := true } false bDemo).world = { bDemo with logs := [] } := by decide
+example : (runMainBmc envDemo { deleteAll := true } true bDemo).world = { bDemo with archive := some [] } := by decide
+-- `peltool -d 50000001` removes `x_50000001` and not the archived file whose name contains the same id
+example : (runMainBmc envDemo { delete := some (s "50000001") } false bDemo).world =
+    { bDemo with logs := [{ name := s "junk", data := [] }] } := by decide
+-- `peltool -A -l` on a BMC without an archive directory: an empty listing, nothing changes
+example : (runMainBmc envDemo { list := true } true { bDemo with archive := none }).world = { bDemo with archive := none } := by decide
 
 end Pel.C11
